@@ -46,7 +46,10 @@ var enums = map[string]func(tier string, deadline time.Time) *run.EnumResult{
 }
 
 var mspecs = map[string]func(tier string) []*mc.MSpec{
+	"C01": mspecsEvents,
+	"C03": mspecsEvents,
 	"C02": mspecsC02,
+	"C13": mspecsC13,
 	"C04": mspecsAccess,
 	"C05": mspecsAccess,
 	"C06": mspecsAccess,
